@@ -7,8 +7,8 @@
 
    Facts of the code that matter (all transcribed, none assumed):
    * the source MAC must be unicast (bit 0 of byte 6 clear), EtherType >= 1536;
-   * EtherType 0x0800: ip4 = ether[14:]; IsValid: len >= 20, len >= IHL, len >= TotalLen — the
-     version nibble is NOT checked, IHL < 20 is accepted, TotalLen < IHL is accepted;
+   * EtherType 0x0800: ip4 = ether[14:]; IsValid (since /repo 38ef1da): len >= 20, IHL >= 20,
+     len >= IHL, TotalLen >= IHL, len >= TotalLen — the version nibble is NOT checked;
    * EtherType 0x86dd: ip6 = ether[14:]; IsValid: len >= 40 and uint16(PayloadLen+40) == len — the
      version nibble is not checked;
    * the ICMP message is frame.Payload() = ether[14+IHL:] resp. ether[54:], i.e. it extends to the
@@ -54,7 +54,8 @@ Definition parse_notify_s (ether : slice) : res (option N) :=
            b0 <- idx ip4 0 ;;
            tl <- be16_at ip4 2 ;;
            let ihl := N.to_nat (N.shiftl (N.land b0 15) 2) in
-           if Nat.ltb (len ip4) ihl || Nat.ltb (len ip4) (N.to_nat tl) then Ok None
+           if Nat.ltb ihl 20 || Nat.ltb (len ip4) ihl || Nat.ltb (N.to_nat tl) ihl
+              || Nat.ltb (len ip4) (N.to_nat tl) then Ok None
            else
              proto <- idx ip4 9 ;;
              icmp <- slfrom ether (14 + ihl) ;;
